@@ -48,6 +48,9 @@ type Op struct {
 	// HostnameReq makes OpMatchAll/OpMatch use a hostname request carrying
 	// the DNS-side fields, i.e. what DNSEngine builds internally.
 	HostnameReq bool
+	// WebClient makes a URL-style request carry the client fields (Client,
+	// IP, Tags) too: rules.Request has them for every kind of request.
+	WebClient bool
 
 	// OpCosmetic (Host is reused)
 	CosOpt rules.CosmeticOption
@@ -76,6 +79,9 @@ func (o *Op) Key() string {
 		if o.HostnameReq {
 			return fmt.Sprintf("%s|h|%s|%d|%s|%s|%d", opKindNames[o.Kind], o.Host, o.DNSType, o.Client, o.IP, o.Tags)
 		}
+		if o.WebClient {
+			return fmt.Sprintf("%s|%s|%s|%d|%s|%s|%d", opKindNames[o.Kind], o.URL, o.Src, o.Type, o.Client, o.IP, o.Tags)
+		}
 		return fmt.Sprintf("%s|%s|%s|%d", opKindNames[o.Kind], o.URL, o.Src, o.Type)
 	}
 }
@@ -91,7 +97,30 @@ var SrcPaths = []string{"/page", "/checkout/", "/news/today", "/"}
 // such neighbours.
 func MutateWebOp(ch *core.Chooser, o Op) Op {
 	n := o
-	switch ch.Intn("q.mutweb", 3) {
+	switch ch.Intn("q.mutweb", 5) {
+	case 3:
+		// the same URL in another case (only $match-case rules may tell)
+		rest := strings.SplitN(o.URL, "://", 2)
+		if len(rest) == 2 {
+			if i := strings.IndexByte(rest[1], '/'); i >= 0 {
+				path := rest[1][i:]
+				if strings.ToLower(path) != path {
+					path = strings.ToLower(path)
+				} else {
+					path = strings.ToUpper(path)
+				}
+				n.URL = rest[0] + "://" + rest[1][:i] + path
+			}
+		}
+	case 4:
+		// the same request from another client
+		if !o.WebClient {
+			n.WebClient = true
+			n.Client, n.IP, n.Tags = ClientNames[1+ch.Intn("q.mutv", len(ClientNames)-1)], "", 0
+		} else {
+			c := MutateOneField(ch, Op{Kind: OpMatchAll, HostnameReq: true, Client: o.Client, IP: o.IP, Tags: o.Tags})
+			n.Client, n.IP, n.Tags = c.Client, c.IP, c.Tags
+		}
 	case 0:
 		cur := 0
 		for i, t := range reqTypes {
@@ -131,7 +160,8 @@ func MutateWebOp(ch *core.Chooser, o Op) Op {
 	return n
 }
 
-var reqTypes = []rules.RequestType{rules.TypeDocument, rules.TypeScript, rules.TypeImage, rules.TypeSubdocument, rules.TypeXmlhttprequest, rules.TypeOther}
+var reqTypes = []rules.RequestType{rules.TypeDocument, rules.TypeScript, rules.TypeImage, rules.TypeSubdocument, rules.TypeXmlhttprequest, rules.TypeOther,
+	rules.TypeScript, rules.TypeImage, rules.TypeStylesheet, rules.TypeObject, rules.TypeMedia, rules.TypeFont, rules.TypeWebsocket, rules.TypePing}
 
 // queryHost draws a host name to ask about: mostly from the run's alphabet,
 // sometimes a subdomain of it, sometimes unrelated.
@@ -183,6 +213,12 @@ func GenOp(ch *core.Chooser, hosts []string, kinds []int) Op {
 			o.Src = "https://" + queryHost(ch, hosts) + SrcPaths[ch.Intn("q.srcpath", len(SrcPaths))]
 		}
 		o.Type = reqTypes[ch.Intn("q.type", len(reqTypes))]
+		if ch.Intn("q.webclient", 8) == 7 {
+			o.WebClient = true
+			o.Client = ClientNames[ch.Intn("q.client", len(ClientNames))]
+			o.IP = ClientIPs[ch.Intn("q.ip", len(ClientIPs))]
+			o.Tags = ch.Intn("q.tags", len(TagSets))
+		}
 	}
 	return o
 }
@@ -226,6 +262,9 @@ func GenOpFor(ch *core.Chooser, hosts []string, kinds []int, lines []string) Op 
 		h := hosts[ch.Intn("q.host", len(hosts))]
 		if i > 0 {
 			h = firstHost(l[:i])
+			if strings.HasSuffix(h, ".*") {
+				h = strings.TrimSuffix(h, "*") + []string{"com", "co.uk", "uk", "org"}[ch.Intn("q.srcsuffix", 4)]
+			}
 		}
 		return Op{Kind: OpCosmetic, Host: h, CosOpt: []rules.CosmeticOption{rules.CosmeticOptionAll, rules.CosmeticOptionAll, rules.CosmeticOptionCSS}[ch.Intn("q.cosopt", 3)]}
 	case strings.Contains(l, "domain="):
@@ -351,7 +390,15 @@ func (o *Op) Request() *rules.Request {
 		}
 		return r
 	}
-	return rules.NewRequest(o.URL, o.Src, o.Type)
+	r := rules.NewRequest(o.URL, o.Src, o.Type)
+	if o.WebClient {
+		r.ClientName = o.Client
+		r.SortedClientTags = TagSets[o.Tags]
+		if o.IP != "" {
+			r.ClientIP = netip.MustParseAddr(o.IP)
+		}
+	}
+	return r
 }
 
 // Engines is the system under simulation: one storage and the three engines
